@@ -87,17 +87,19 @@ def envelope_spec(draw, tier):
     names = draw(st.lists(st.sampled_from(NAMES), max_size=6, unique=True))
     extras = [draw(attr(n)) for n in names]
     attrs = list(draw(st.permutations(required + extras)))
+    # the nonce is whatever the vmware.iv attribute holds: 12 bytes in files ESXi writes, but AES-GCM takes any non-empty length
+    ivlen = draw(st.sampled_from([12, 12, 12, 12, 12, 1, 8, 13, 16, 32]))
     fill_free = draw(st.sampled_from([None, None, None, 0, 1, 2, 7]))
     if fill_free is not None:
         # a Bytes attribute sized so that the attributes + terminator leave exactly fill_free bytes of the 4096-byte header block
-        used = 512 + 4 + sum(len(be.pack_attr(t, f, n, ("00" * 32 if v == "@keyhash" else "00" * 12 if v == "@iv" else v))[0]) for t, f, n, v in attrs)
+        used = 512 + 4 + sum(len(be.pack_attr(t, f, n, ("00" * 32 if v == "@keyhash" else "00" * ivlen if v == "@iv" else v))[0]) for t, f, n, v in attrs)
         room = 4096 - used - fill_free - (4 + len("fill") + 1 + 8)
         if room >= 0:
             attrs.insert(draw(st.integers(0, len(attrs))), [be.T_BYTES, 0, "fill", bytes((i * 11) & 0xFF for i in range(room)).hex()])
     mode = draw(st.sampled_from(["api", "api", "api", "cli", "keystore"]))
     spec = {
         "mode": mode, "payload_len": plen, "payload_key": draw(st.integers(1, 1 << 30)), "padding": draw(st.one_of(st.sampled_from([0, 4095, 1]), st.integers(0, 4095), st.sampled_from([65535, 65536, 65537, 70000, (1 << 20) + 5]))),
-        "key": draw(st.binary(min_size=32, max_size=32)).hex(), "iv": draw(st.binary(min_size=12, max_size=12)).hex(),
+        "key": draw(st.binary(min_size=32, max_size=32)).hex(), "iv": draw(st.binary(min_size=ivlen, max_size=ivlen)).hex(),
         "attrs": [list(a) for a in attrs], "aad": draw(st.one_of(st.none(), st.binary(min_size=1, max_size=24).map(bytes.hex))),
         "xor": draw(st.sampled_from([1, 0x80, 0xFF, 0x20])), "ct_positions": draw(st.lists(st.integers(0, 1 << 20), min_size=4, max_size=8)),
     }
